@@ -9,12 +9,13 @@ def matrix(fn):
     if not os.path.exists(p): return m
     for l in open(p):
         f = l.split()
-        if len(f) < 5 or not re.match(r'C\d\d[AB]$', f[0]): continue
+        if len(f) < 5 or not re.match(r'C\d\d[A-D]$', f[0]): continue
         rc = int(f[3].split('=')[1]); viol = int(f[5].split('=')[1])
         clauses = re.findall(r'clause=([^ ]+)', l)
         m.setdefault(f[0], {})[f[1] + ':' + f[2]] = {'exit': rc, 'violation_lines': viol, 'clauses': clauses}
     return m
-first, final = matrix('matrix-quick.txt'), matrix('matrix3.txt')
+first = matrix('matrix-quick.txt'); first.update(matrix('matrix-r2-first.txt'))
+final = matrix('matrix-final.txt')
 extra = matrix('matrix-extra.txt')
 for d in sorted(glob.glob(os.path.join(here, 'seeded', 'C*'))):
     name = os.path.basename(d)
@@ -28,11 +29,12 @@ for d in sorted(glob.glob(os.path.join(here, 'seeded', 'C*'))):
         'needs_to_manifest': a.get('needs'),
         'witness': a.get('witness'),
         'demo': {'file': 'demo_test.go', 'dir': a.get('demo_dir', '.') or '.'},
-        'written_by': 'independent sub-agent given only the property text and a scratch worktree',
+        'written_by': 'independent sub-agent given only the property text and a scratch worktree' + ('' if name[3] in 'AB' else ' (second campaign; told which functions the first campaign had already used)'),
+        'rebased': name in ('C11D', 'C20C'),
         'confirmed_independently': confirmed,
         'what_was_run': [
             'tools/seedverify.sh seeded/%s  (scratch worktree: patch applies, go build, full test suite passes with the change, demo fails with it and passes without it)' % name,
-            'tools/seedrun.sh seeded/%s quick %s  (git -C /repo apply, ./check, git -C /repo checkout -- .) before strengthening' % (name, name[:3]),
+            ('tools/seedrun.sh seeded/%s quick %s  (git -C /repo apply, ./check, git -C /repo checkout -- .) before strengthening' if name[3] in 'AB' else 'tools/seedscratch.sh seeded/%s quick %s  (first run, against the checks as committed before this change was looked at)') % (name, name[:3]),
             'tools/seedscratch.sh seeded/%s quick %s  (same check against a scratch worktree via VERIF_REPO) after strengthening' % (name, name[:3]),
         ],
         'detection_first_run': first.get(name, {}),
